@@ -1,7 +1,7 @@
 """Oracle for C08: likelihood evaluation is a pure, reproducible, copyable function of its inputs.
 
-One scenario = one random configuration (lens list of mixed types with nested arrays, global model switches, bounds and
-fixed dictionaries, optional custom SNe sample / SNe file sample / KDE chain / custom prior / fixed cosmology / tabulated
+One scenario = one random configuration (lens list of mixed types with nested arrays, global model switches incl. global
+GAUSSIAN / GEV line-of-sight populations, bounds and fixed dictionaries, optional custom SNe sample / SNe file sample / KDE chain / custom prior / fixed cosmology / tabulated
 distances) and a random call history on ONE CosmoLikelihood object: sharp points, scatter points, out-of-bounds points,
 points failing the curvature guard, calls with user-tabulated distances, argument vectors given as list / array / view of
 a walker array.  copy.deepcopy and pickle clones are taken before the history and in the middle of it.
@@ -791,7 +791,7 @@ def run_copy_repro(rec, case):
 
 
 STREAMS = {1: None, 2: run_lens_direct, 3: run_sne, 4: run_kde, 5: run_copy_repro}
-COUNTS = {"quick": {1: 12, 2: 24, 3: 18, 4: 12, 5: 2 * len(COMPONENTS)}, "thorough": {1: 64, 2: 240, 3: 180, 4: 120, 5: 20 * len(COMPONENTS)}}
+COUNTS = {"quick": {1: 12, 2: 24, 3: 18, 4: 12, 5: 2 * len(COMPONENTS)}, "thorough": {1: 64, 2: 240, 3: 180, 4: 120, 5: 12 * len(COMPONENTS)}}
 NSTEPS = {"quick": 20, "thorough": 48}
 
 
